@@ -157,6 +157,22 @@ impl vm_memory::ReadVolatile for Chunked<'_> {
     }
 }
 
+/// a sink that accepts at most `chunk` bytes per call (short writes without errors)
+struct ChunkedSink {
+    got: Vec<u8>,
+    chunk: usize,
+}
+
+impl vm_memory::WriteVolatile for ChunkedSink {
+    fn write_volatile<B: vm_memory::bitmap::BitmapSlice>(&mut self, buf: &VolatileSlice<B>) -> Result<usize, vm_memory::volatile_memory::Error> {
+        let n = buf.len().min(self.chunk);
+        let mut tmp = vec![0u8; n];
+        let r = buf.read(&mut tmp, 0)?;
+        self.got.extend_from_slice(&tmp[..r]);
+        Ok(r)
+    }
+}
+
 fn gen_nlen(room: usize) -> usize {
     let c = cx();
     (match c.a(9) {
@@ -543,18 +559,23 @@ fn one_op<B: BmCtl>(w: &mut GmWorld<B>, tracked: bool, step: usize) -> Step {
             let count = gen_nlen(room);
             let mut sink: Vec<u8> = vec![1, 2, 3];
             let moved = room.min(count);
+            // a Vec, or a sink that accepts only a few bytes per call (as a socket or pipe does)
+            let chunk = if cx().a(2) == 0 { usize::MAX } else { 1 + cx().a(40) as usize };
+            let mut csink = ChunkedSink { got: vec![1, 2, 3], chunk };
+            let tag = if chunk == usize::MAX { "Vec".to_string() } else { format!("short-writing sink (<= {} bytes per call)", chunk) };
             if kind == 10 {
-                st.kind = "write_volatile_to(Vec)";
-                st.desc = format!("write_volatile_to({:#x}, Vec, {})", addr, count);
-                st.got = go_n(catch(|| w.gm.write_volatile_to(ga, &mut sink, count)));
+                st.kind = "write_volatile_to(stream)";
+                st.desc = format!("write_volatile_to({:#x}, {}, {})", addr, tag, count);
+                st.got = if chunk == usize::MAX { go_n(catch(|| w.gm.write_volatile_to(ga, &mut sink, count))) } else { go_n(catch(|| w.gm.write_volatile_to(ga, &mut csink, count))) };
                 st.exp = Some(if room == 0 { GO::Iga } else { GO::Count(moved) });
             } else {
-                st.kind = "write_all_volatile_to(Vec)";
-                st.desc = format!("write_all_volatile_to({:#x}, Vec, {})", addr, count);
-                st.got = go_u(catch(|| w.gm.write_all_volatile_to(ga, &mut sink, count)));
+                st.kind = "write_all_volatile_to(stream)";
+                st.desc = format!("write_all_volatile_to({:#x}, {}, {})", addr, tag, count);
+                st.got = if chunk == usize::MAX { go_u(catch(|| w.gm.write_all_volatile_to(ga, &mut sink, count))) } else { go_u(catch(|| w.gm.write_all_volatile_to(ga, &mut csink, count))) };
                 st.exp = Some(if room == 0 { GO::Iga } else if moved < count { GO::Partial(count, moved) } else { GO::Unit });
             }
-            if Some(&st.got) == st.exp.as_ref() && sink[3..] != w.model_read(addr, moved)[..] {
+            let received = if chunk == usize::MAX { &sink } else { &csink.got };
+            if Some(&st.got) == st.exp.as_ref() && received[3..] != w.model_read(addr, moved)[..] {
                 st.got = GO::Other("sink received wrong bytes".into());
             }
         }
